@@ -21,6 +21,17 @@ type c10hist struct {
 	Last   string `json:"crashing_op"` // create | put:<shape> | wipe
 }
 
+// c10Freq is the checkpoint frequency in force for the current history: 3 (lowered through the accessor) or 0 = the
+// production frequency, untouched (needed because the lowered frequency is not yet in effect *while* a store is being
+// opened, so open-time reads of checkpoints are only exercised at the real 1440 boundary).
+var c10Freq uint64 = freq
+
+func setFreq(st *certstore.Store) {
+	if c10Freq > 0 {
+		st.VerifSetPowerTableFrequency(c10Freq)
+	}
+}
+
 // stateObs is the C10 observation: first instance, latest, certificates first..latest, tables first..latest+1;
 // "uninit" for a datastore holding no store.
 func stateObs(ds datastore.Datastore, variant string, first uint64) (string, error) {
@@ -40,7 +51,7 @@ func stateObs(ds datastore.Datastore, variant string, first uint64) (string, err
 	if err != nil {
 		return "", err
 	}
-	st.VerifSetPowerTableFrequency(freq)
+	setFreq(st)
 	return fmt.Sprintf("first=%d\n%s", st.VerifFirstInstance(), observe(st, st.VerifFirstInstance(), false)), nil
 }
 
@@ -79,8 +90,18 @@ func runC10(chk *vcommon.Check, thorough bool) {
 		}
 	}
 	rec(nil)
+	// the production frequency at the real checkpoint boundary: the crashing put is instance 1439 (= 1440-1)
+	for _, pre := range [][]int{{}, {1}, {1, 3}} {
+		for _, l := range []string{"put:0", "put:1", "put:2", "put:4"} {
+			hists = append(hists, c10hist{uint64(1439 - len(pre)), pre, l})
+		}
+	}
 	var crashPoints, evals int64
 	for hi, h := range hists {
+		c10Freq = freq
+		if h.First > 1000 {
+			c10Freq = 0
+		}
 		// ---- committed prefix on a logging datastore
 		inner := datastore.NewMapDatastore()
 		lds := &logDS{Datastore: dssync.MutexWrap(inner)}
@@ -104,7 +125,7 @@ func runC10(chk *vcommon.Check, thorough bool) {
 				chk.Violation("create-failed", err.Error(), map[string]any{"kind": "c10", "history": h})
 				return
 			}
-			st.VerifSetPowerTableFrequency(freq)
+			setFreq(st)
 			ref = &refStore{exists: true, first: h.First, tables: []gpbft.PowerEntries{table0()}}
 			for _, s := range h.Shapes {
 				if err := doPut(s); err != nil {
@@ -220,7 +241,7 @@ func runC10(chk *vcommon.Check, thorough bool) {
 				if h.Last != "wipe" && h.Last != "create" && got == wantBefore {
 					st2, err := certstore.OpenStore(bg, ds)
 					if err == nil {
-						st2.VerifSetPowerTableFrequency(freq)
+						setFreq(st2)
 						c := ref.certs[len(ref.certs)-1]
 						if err = st2.Put(bg, c); err == nil {
 							if g := fmt.Sprintf("first=%d\n%s", st2.VerifFirstInstance(), observe(st2, st2.VerifFirstInstance(), false)); g != afterObs {
@@ -241,7 +262,7 @@ func runC10(chk *vcommon.Check, thorough bool) {
 						ext := ref.clone()
 						st3, e3 := certstore.OpenStore(bg, ds)
 						if e3 == nil {
-							st3.VerifSetPowerTableFrequency(freq)
+							setFreq(st3)
 							for x := 0; x < 2 && e3 == nil; x++ {
 								cur := ext.latestTable()
 								nx := applyShape(cur, 1+x, 40+x)
